@@ -126,7 +126,7 @@ def run(ctx):
                rule="design: TLC explores every interleaving of master / spawn-loop / worker / fault actions for init<=max<=3(4), batch 10 and 2, <=3 requests, <=1 fault (Bound, "
                     "refCount = registered + reserved, live <= refCount <= max, TimeoutIsolated); the deviation 'ascoded' is refuted in the same run and its counterexample "
                     "schedules (%d) plus %d simulated behaviours of the intended design are REPLAYED through the H5 gates (cmd.Start and the three channel sends held and released "
-                    "in schedule order) into the real master with real worker processes; %d free-running randomized load runs (bursts, hung requests, crashing workers) over 6 "
+                    "in schedule order) into the real master with real worker processes; %d free-running randomized load runs (bursts, hung requests, crashing workers, and a late round of short requests after a quiet period longer than --timeout) over 6 "
                     "configurations. Every run: live workers (event log and /proc, sampled every 4 ms) <= max; >= init alive after the quiet period; every normal request "
                     "answered exactly once with its own token; and the complete H5 event log is validated by TLC against Trace_ZnPrefork (action, refCount, table size, "
                     "spawn-loop size bound at every event; %d log lines)" % (len([s for s in scheds if s[0].startswith("cex")]), len(scheds) - len([s for s in scheds if s[0].startswith("cex")]), nfree, nlines),
